@@ -7,7 +7,7 @@ methods: method -> {'returns': ty, 'pure': True}  (uninterpreted function of sel
 import z3
 
 from pyvc import smt
-from pyvc.values import ANY, STR, INT, BOOL, NONE_T, EXC, SEQ, DICT, SET, OBJ, OPT, Val, BVal, IVal, TupVal
+from pyvc.values import ANY, STR, INT, BOOL, NONE_T, EXC, SEQ, DICT, SET, OBJ, OPT, FIXTUP, Val, BVal, IVal, TupVal
 
 NODE_ATTRS = {
     "name": STR,
@@ -107,6 +107,23 @@ CLASSES = {
         "attrs": {"values": DICT(STR, ANY), "status": ANY, "error": ANY, "pause": ANY, "run_id": STR},
         "methods": {},
     },
+    "SyncRunnerTemplate": {
+        "module": "hypergraph.runners._shared.template_sync", "file": "runners/_shared/template_sync.py",
+        "attrs": {"default_max_iterations": INT, "capabilities": ANY, "supported_node_types": ANY},
+        "methods": {
+            # dispatcher plumbing does not raise: EventDispatcher.emit/shutdown contain processor failures (C13 contracts)
+            "_create_dispatcher": {"pure": False, "returns": OBJ("EventDispatcher"), "raises": []},
+            "_emit_run_start_sync": {"pure": False, "returns": FIXTUP(STR, STR), "raises": []},
+            "_emit_run_end_sync": {"pure": False, "returns": NONE_T, "raises": []},
+            "_shutdown_dispatcher_sync": {"pure": False, "returns": NONE_T, "raises": []},
+            "_execute_graph_impl": {"pure": False, "returns": OBJ("GraphState"), "raises": ["Exception"]},
+        },
+    },
+    "EventDispatcher": {
+        "module": "hypergraph.events.dispatcher", "file": "events/dispatcher.py",
+        "attrs": {"active": BOOL, "_processors": SEQ(ANY), "_strict": BOOL},
+        "methods": {},
+    },
     "ExecutionError": {
         "module": "hypergraph.exceptions", "file": "exceptions.py",
         "attrs": {"partial_state": ANY, "__cause__": ANY},
@@ -116,6 +133,7 @@ CLASSES = {
 
 # attribute / method access on statically untyped values (e.g. elements of a locally built list): node vocabulary
 ANY_ATTRS = dict(NODE_ATTRS)
+ANY_ATTRS.update({"__cause__": ANY, "partial_state": ANY, "_partial_state": ANY, "pause_info": ANY, "error": ANY, "status": ANY})
 ANY_METHODS = dict(NODE_METHODS)
 OPAQUE = {}
 
